@@ -350,6 +350,105 @@ class NestedS(Nested):
         return 'NS%d' % self.nid
 
 
+# how a re-entrant call is handed a scope.  'kwrun' / 'kwcopy' (glom(t, spec, scope=<running scope>))
+# are generated only when REENT_GLOM_KW is set: on the unchanged tree glom() copies the caller's error
+# bookkeeping (CHILD_ERRORS list, NO_PYFRAME …) into the new call -- reported as a finding, not adapted to.
+REENT_GLOM_KW = bool(os.environ.get('C20_REENT_GLOM_KW'))
+HOWS = ['none', 'user', 'copy', 'run']
+HOWS_KW = ['kwrun', 'kwcopy']
+
+
+def user_vars(scope):
+    """the variables the *user* put into the scope of the running call (glom(..., scope={...}))"""
+    try:
+        return {'uv': scope['uv']}
+    except KeyError:
+        return {}
+
+
+class Reenter:
+    """a re-entrant glom call made with access to the RUNNING scope.
+
+    As a custom spec (`glomit(target, scope)`) or as a plain callable invoked through
+    `Call(fn, args=(T, S))`: make the inner call (`how` says what scope it is handed: none / the
+    user's variables / a dict copy of the running scope / the running scope itself, through
+    `Spec(inner).glom(t, scope=…)`, or through `glom(t, inner, scope=…)`), catch its failure or let it
+    propagate, and then (custom spec only) evaluate `after` the ordinary way, as a child of the
+    running scope (`scope[glom](target, after, scope)`).
+
+    `ctx.stubs`: the reference run ("the inner call is made in isolation"): the inner call is not
+    made here; its outcome observed in isolation is returned / raised as a constant."""
+
+    def __init__(self, ctx, nid, d):
+        self.ctx, self.nid, self.d = ctx, nid, d
+        self.call = d['inner']
+        self.how, self.catch = d['how'], d.get('catch', True)
+        self.inner_spec = build(self.call['spec'], ctx) if ctx.stubs is None else None
+        self.after = build(d['after'], ctx) if d.get('after') is not None else None
+        self.has_after = d.get('after') is not None
+
+    def inner_call(self, scope):
+        import glom
+        ctx, how = self.ctx, self.how
+        if ctx.stubs is not None:
+            out, exc = ctx.stubs[self.nid]
+            if exc is not None:
+                raise copy.copy(exc)
+            return ctx.stub_values[self.nid]
+        target = dec(self.call['target'])
+        spec = self.inner_spec
+        if ctx.logs is not None:
+            ctx.logs.append([])
+        holder = {}
+
+        def run():
+            if how == 'none':
+                holder['v'] = glom.glom(target, spec)
+            elif how == 'user':
+                holder['v'] = glom.glom(target, spec, scope=user_vars(scope))
+            elif how == 'copy':
+                holder['v'] = glom.Spec(spec).glom(target, scope=dict(scope))
+            elif how == 'run':
+                holder['v'] = glom.Spec(spec).glom(target, scope=scope)
+            elif how == 'kwrun':
+                holder['v'] = glom.glom(target, spec, scope=scope)
+            elif how == 'kwcopy':
+                holder['v'] = glom.glom(target, spec, scope=dict(scope))
+            else:
+                raise ValueError(how)
+            return holder['v']
+        out, exc = outcome_of(run)
+        if ctx.logs is not None:
+            evs = ctx.logs.pop()
+            ctx.logs[-1].append(['nested', evs, out])
+        ctx.inner[self.nid] = (out, exc, holder.get('v'))
+        if exc is not None:
+            raise exc
+        return holder['v']
+
+    def _do(self, target, scope, as_spec):
+        import glom
+        try:
+            r = self.inner_call(scope)
+            if not (as_spec and self.has_after):
+                return r
+        except Exception:
+            if not self.catch:
+                raise
+            if not (as_spec and self.has_after):
+                return 'caught-%d' % self.nid
+        return scope[glom.glom](target, self.after, scope)
+
+    def glomit(self, target, scope):
+        return self._do(target, scope, True)
+
+    def __call__(self, target, scope):
+        return self._do(target, scope, False)
+
+    def __repr__(self):
+        return 'RE%d' % self.nid
+
+
 def build(sj, ctx):
     import glom
     from glom import T, S, A, Coalesce, Fold, Fill, Match, Val
@@ -413,6 +512,9 @@ def build(sj, ctx):
         return Nested(ctx, sj[1], sj[2])
     if k == 'specglom':
         return glom.Call(NestedS(ctx, sj[1], sj[2]), args=(T,), kwargs={'scope': S})
+    if k == 'reenter':
+        r = Reenter(ctx, sj[1], sj[2])
+        return r if sj[2]['point'] == 'glomit' else glom.Call(r, args=(T, S))
     raise ValueError(sj)
 
 
@@ -421,6 +523,11 @@ def nested_ids(sj, acc):
         if sj and sj[0] in ('nested', 'specglom'):
             acc.append((sj[1], sj[2]))
             nested_ids(sj[2]['spec'], acc)
+        elif sj and sj[0] == 'reenter':
+            acc.append((sj[1], sj[2]['inner']))
+            nested_ids(sj[2]['inner']['spec'], acc)
+            if sj[2].get('after') is not None:
+                nested_ids(sj[2]['after'], acc)
         else:
             for x in sj:
                 nested_ids(x, acc)
@@ -432,6 +539,11 @@ def nested_kinds(sj, acc):
         if sj and sj[0] in ('nested', 'specglom'):
             acc.append((sj[1], sj[0]))
             nested_kinds(sj[2]['spec'], acc)
+        elif sj and sj[0] == 'reenter':
+            acc.append((sj[1], sj[2]))
+            nested_kinds(sj[2]['inner']['spec'], acc)
+            if sj[2].get('after') is not None:
+                nested_kinds(sj[2]['after'], acc)
         else:
             for x in sj:
                 nested_kinds(x, acc)
@@ -536,6 +648,11 @@ def remember_instance(obj):
 
 # ----------------------------------------------------------------------------- running cases
 
+def call_kw(call):
+    """keyword arguments of the glom() call of a case: the user's scope variables"""
+    return {'scope': dict(call['scope'])} if call.get('scope') else {}
+
+
 def run_alone(call, tid):
     """the call run alone, logging its shared-state accesses; also each nested call run alone at top level"""
     import glom
@@ -546,7 +663,7 @@ def run_alone(call, tid):
     spec = build(call['spec'], ctx)
     clear_caches()
     with Logged(ctx):
-        out, exc = outcome_of(lambda: glom.glom(target, spec))
+        out, exc = outcome_of(lambda: glom.glom(target, spec, **call_kw(call)))
     return log, out, ctx
 
 
@@ -681,6 +798,8 @@ def run_impl(case):
     mode = case['mode']
     if mode == 'nested':
         return run_nested(case, out, threads_payload, alone_ctxs)
+    if mode == 'reent':
+        return run_reent(case, out, threads_payload, alone_ctxs)
     clear_caches()
     results = [None] * n
     if mode == 'sched':
@@ -696,7 +815,7 @@ def run_impl(case):
             target = dec(calls[tid]['target'])
             spec = build(calls[tid]['spec'], ctx)
             sched.yield_point(tid)                      # wait for the first segment
-            results[tid] = outcome_of(lambda: glom.glom(target, spec))[0]
+            results[tid] = outcome_of(lambda: glom.glom(target, spec, **call_kw(calls[tid])))[0]
             sched.finished[tid] = True
             sched.arrived[tid].release()
         ths = [threading.Thread(target=body, args=(i,), daemon=True) for i in range(n)]
@@ -732,7 +851,7 @@ def run_impl(case):
             res = alone[tid]
             for _ in range(reps):
                 spec = build(calls[tid]['spec'], ctx)
-                o = outcome_of(lambda: glom.glom(target, spec))[0]
+                o = outcome_of(lambda: glom.glom(target, spec, **call_kw(calls[tid])))[0]
                 if o != alone[tid]:
                     res = o
                     break
@@ -815,6 +934,62 @@ def run_nested(case, out, threads_payload, alone_ctxs):
         outs.append(seen[0] if seen is not None else {'err': ['NotReached', 'the nested call did not run']})
         if seen is None:            # not reached in the real run either way: compare with itself
             payload[len(outs) - 1] = dict(payload[len(outs) - 1], alone=outs[-1])
+    out['threads'] = payload
+    out['impl'] = {'outs': outs, 'pcache': pc, 'tcache': tc, 'deadlock': False}
+    return out
+
+
+def isolated_inner(nid, d, kw):
+    """the inner call of a re-entry made in isolation, the way `how` makes it: as a top-level glom()
+    call handed the user's variables (none / user / kw*), or -- Spec(inner).glom(t, scope=<scope>)
+    evaluates inside the scope it is given and is not a glom() call of its own -- from a trivial
+    outer call that has nothing but the user's variables in its scope (copy / run)"""
+    import glom
+    c2 = Ctx(0)
+    how = d['how']
+    if how in ('copy', 'run'):
+        r = Reenter(c2, nid, dict(d, after=None, catch=False))
+        outcome_of(lambda: glom.glom(None, glom.Call(r, args=(glom.T, glom.S)), **kw))
+    else:
+        r = Reenter(c2, nid, dict(d, after=None, catch=False, how='none' if how == 'none' else 'user'))
+        outcome_of(lambda: r(None, kw.get('scope', {})))
+    return c2.inner[nid]
+
+
+def run_reent(case, out, threads_payload, alone_ctxs):
+    """one outer call whose spec makes re-entrant calls with access to the running scope.
+    Observed: the outer call as it is (outcome = value, or class + full rendered message / trace);
+    expected: the same outer call in which every inner call is made in isolation -- its isolated
+    outcome is a constant.  The inner calls are compared too (as they ran nested / in isolation)."""
+    import glom
+    outer = case['calls'][0]
+    kw = call_kw(outer)
+    inner = nested_ids(outer['spec'], [])
+    kinds = dict(nested_kinds(outer['spec'], []))
+    payload = [threads_payload[0]]
+    alone_inner, stub_values = {}, {}
+    for nid, call in inner:
+        log, _, _ = run_alone(dict(call, scope=outer.get('scope') if kinds[nid]['how'] != 'none' else None), 0)
+        o2, exc, val = isolated_inner(nid, kinds[nid], kw)
+        alone_inner[nid] = (o2, exc)
+        stub_values[nid] = val
+        payload.append({'events': log, 'alone': o2})
+    clear_caches()
+    ctx = Ctx(0)
+    o_real = outcome_of(lambda: glom.glom(dec(outer['target']), build(outer['spec'], ctx), **kw))[0]
+    pc, tc = snapshot_caches()
+    sctx = Ctx(0, stubs=alone_inner)
+    sctx.stub_values = stub_values
+    o_stub = outcome_of(lambda: glom.glom(dec(outer['target']), build(outer['spec'], sctx), **kw))[0]
+    payload[0] = dict(payload[0], alone=o_stub)
+    outs = [o_real]
+    for i, (nid, call) in enumerate(inner):
+        seen = ctx.inner.get(nid)
+        if seen is None:            # not reached: nothing to compare
+            outs.append({'err': ['NotReached', 'the nested call did not run']})
+            payload[i + 1] = dict(payload[i + 1], alone=outs[-1])
+        else:
+            outs.append(seen[0])
     out['threads'] = payload
     out['impl'] = {'outs': outs, 'pcache': pc, 'tcache': tc, 'deadlock': False}
     return out
